@@ -10,7 +10,14 @@ def sig_of(rej, scn):
     if why == "not-advertised":
         return "C07:not-advertised:%s:%s" % (det.get("cmd"), "+".join(sorted(det.get("need") or [])))
     if why == "accessors":
+        if ";" in ((scn or {}).get("desc") or {}).get("AppID", ""):
+            return "C07:accessors:%s:reply-id-with-semicolon" % "+".join(sorted(det or []))
         return "C07:accessors:%s" % "+".join(sorted(det or []))
+    if why and why.startswith("frame-text-"):
+        # a row drawn by a widget of the library: which cell fails first says nothing (a wrongly measured row
+        # shifts and wraps); name the widgets of the session instead
+        ks = {op["K"] for f in ((scn or {}).get("desc") or {}).get("Frames", []) for op in f.get("Ops") or []}
+        return "C07:%s:%s" % (why, "+".join(sorted(ks & {"pager", "input"})))
     if why == "unknown-vocabulary":
         return "C07:unknown-vocabulary:%s" % str(det)[:40]
     if why and why.startswith("frame-"):
@@ -19,6 +26,15 @@ def sig_of(rej, scn):
     if why == "not-nearest":
         return "C07:palette:not-nearest"
     return "C07:%s" % why
+
+
+def text_cluster_width(evs):
+    """the first cluster of a widget row is logged one column wider than the terminal made it"""
+    for e in reversed(evs):
+        if e.get("ev") == "frame" and e.get("texts"):
+            e["texts"][0]["cells"][0][8] += 1
+            return evs
+    return None
 
 
 def main(c):
@@ -30,6 +46,10 @@ def main(c):
         "palette distance in exact integers (900,3481,121); any entry at minimal distance is accepted",
         "what the replies establish depends neither on the size of the application's event queue (Options.EventQueueSize) "
         "nor on the letter case of hexadecimal strings in replies (xterm ctlseqs: 'hexadecimal', no case prescribed)",
+        "text handed to a widget of the library (widgets/pager, widgets/textinput) is laid out by the library: every cluster must be "
+        "displayed directly behind the one before it, each as wide as the advertised terminal makes it (texts far narrower than the "
+        "window: wrapping, truncation and scrolling are not judged); the text input's cursor belongs in the column behind its content",
+        "an application id reported in the OSC 176 reply may be any string (foot ctlseqs: no character is excluded)",
         "the name in the XTVERSION reply is a reply to a start-up query: 'tmux 3.4' counts as advertising Unicode core; whether "
         "mode 2027 is then set by New (it is not) and reset on Close is not judged: used-only-when-advertised is all the text demands",
     ]
@@ -64,6 +84,7 @@ def main(c):
                 ("same session, nothing advertised", selfmut.nothing_advertised),
                 ("capability accessor flipped", selfmut.accessor_flipped),
                 ("frame: glyph of cell (0,0)", selfmut.frame_glyph()),
+                ("widget row: logged width of its first cluster", text_cluster_width),
             ])
         idx = c.load_index(td)
         c.count_distinct(idx)
@@ -85,6 +106,7 @@ def main(c):
         rule="session = advertised feature subset (15 features; quick: every single feature with both ways of advertising it, "
              "every pair, empty/full, 150 random subsets; thorough: all 2^15) x start-up, three frames exercising RGB/underline/"
              "width fallbacks, Close; plus terminal-name / DA1-class sessions, sessions with event queues of 1..16 entries and "
-             "sessions whose XTGETTCAP / tertiary-DA replies use lower- or mixed-case hex digits; palette = RGB->index fallback for a boundary-rich grid (quick) or all 2^24 colours (thorough), "
+             "sessions whose XTGETTCAP / tertiary-DA replies use lower- or mixed-case hex digits, sessions drawing method-dependent clusters through "
+             "the pager / text input widgets, sessions whose OSC 176 reply carries ids with semicolons; palette = RGB->index fallback for a boundary-rich grid (quick) or all 2^24 colours (thorough), "
              "256 colours per event; distinct = distinct descriptor",
         exhaustive=(c.tier == "thorough"))
